@@ -145,10 +145,13 @@ def valid_pool(name, rng, size):
             if runs:
                 i = rng.choice(runs[:1] + runs)
                 cands.append(s[:i] + "0" + s[i:])
-        if rng.random() < 0.35:
+        lone = [i for i, ch in enumerate(s) if ch.isalpha() and ch.isascii() and (i == 0 or not s[i - 1].isalpha())
+                and (i + 1 == len(s) or not s[i + 1].isalpha())]
+        if rng.random() < (0.7 if lone else 0.3):
             # one letter in the other case, and the next letter in that case (1.0a / 1.0A / 1.0B: where a comparison folds
-            # case in one place and not in another, a third version lies between the two)
-            idx = [i for i, ch in enumerate(s) if ch.isalpha() and ch.isascii()]
+            # case in one place and not in another, a third version lies between the two); a letter that stands alone (the
+            # version letter of gentoo, openssl, debian) first
+            idx = lone or [i for i, ch in enumerate(s) if ch.isalpha() and ch.isascii()]
             if idx:
                 i = rng.choice(idx[-2:])
                 sw = s[:i] + s[i].swapcase() + s[i + 1:]
